@@ -169,6 +169,10 @@ class GateReplacer(Visitor):
         alias_index = filter_float(self.visit(qubit.alias_index))
         if not isinstance(alias_from, (Register, Parameter)):
             raise JaqalError(f"Cannot index {alias_from}: it is not a register")
+        if isinstance(alias_index, bool) or not isinstance(
+            alias_index, (int, float, AnnotatedValue)
+        ):
+            raise JaqalError(f"Cannot index {alias_from.name} with {alias_index}")
         return alias_from[alias_index]
 
 
